@@ -1,6 +1,7 @@
 package band
 
 import (
+	"errors"
 	"time"
 
 	"github.com/brocaar/lorawan"
@@ -38,6 +39,10 @@ func (b *kr920Band) GetPingSlotFrequency(lorawan.DevAddr, time.Duration) (uint32
 }
 
 func (b *kr920Band) GetRX1ChannelIndexForUplinkChannelIndex(uplinkChannel int) (int, error) {
+	if uplinkChannel < 0 {
+		return 0, errors.New("lorawan/band: invalid channel")
+	}
+
 	return uplinkChannel, nil
 }
 
